@@ -658,6 +658,153 @@ def analyse_wrappers(jobs_list, jobs=None):
     return _pool_map(_wrapper_worker, list(jobs_list), jobs)
 
 
+def _conversion_worker(job):
+    """Conversion `module.function` applied to every accepted shape of the source (and to its format()ed
+    presentation): result kind and shape, which source characters it embeds, which generator produced
+    the new characters, and whether the target validator can accept it."""
+    mn, fname, target = job
+    I = get_interp()
+    S, B = I.ctx.S, I.B
+    prog = I.prog
+    out = {'job': job, 'runs': 0, 'results': [], 'alarms': [], 'crash': None}
+    try:
+        rv = prog.resolve_name(prog.mods[mn], 'validate')
+        vnode = prog.mods[rv[1]].funcs[rv[2]]
+        rc = prog.resolve_name(prog.mods[mn], fname)
+        cnode = prog.mods[rc[1]].funcs[rc[2]]
+        rf = prog.resolve_name(prog.mods[mn], 'format')
+        env = Env()
+        I.ctx.scopes = [[]]
+        I.ctx.stack = [(mn, '<entry>')]
+        I.closures = []
+        I.memo = {}
+        outs = I.call_func(Func(rv[1], rv[2]), entry_args(I, vnode, env), {}, vnode, env, multi=True)
+        if not isinstance(outs, list):
+            return out
+        seen = set()
+        vals = []
+        for e0, v in outs:
+            if not isinstance(v, Str):
+                continue
+            e1 = e0.copy()
+            S.refine_all(e1, v, S.ASCII)
+            if e1.dead:
+                continue
+            if v.fixed:
+                vals.append((e1, v))
+            elif v.hi is not None and v.hi - (v.lo or 0) <= 20:
+                for n in range(v.lo or 0, v.hi + 1):
+                    e2 = e1.copy()
+                    m_ = S.materialise(e2, v, n)
+                    if m_ is not None and not e2.dead:
+                        m_.sid = fresh_id()
+                        vals.append((e2, m_))
+        for e1, v in vals:
+            inputs = [('compact', e1, v)]
+            if rf and rf[0] == 'func':
+                fnode = prog.mods[rf[1]].funcs[rf[2]]
+                req = len(fnode.args.args) - len(fnode.args.defaults)
+                if req == 1:
+                    ef = e1.copy()
+                    ef.frames = [{}]
+                    I.ctx.scopes = [[]]
+                    I.ctx.stack = [(mn, '<entry>')]
+                    I.closures = []
+                    fouts = I.call_func(Func(rf[1], rf[2]), [v], {}, fnode, ef, multi=True)
+                    for fe, fv in (fouts if isinstance(fouts, list) else []):
+                        if isinstance(fv, Str) and fv.fixed and fv.sid != v.sid:
+                            inputs.append(('formatted', fe, fv))
+            for how, ein, arg in inputs:
+                e = ein.copy()
+                e.frames = [{}]
+                I.ctx.scopes = [[]]
+                I.ctx.stack = [(mn, '<entry>')]
+                I.closures = []
+                couts = I.call_func(Func(rc[1], rc[2]), [arg], {}, cnode, e, multi=True)
+                out['runs'] += 1
+                for ev in I.ctx.scopes[0]:
+                    if not is_ve(ev.kind):
+                        d = describe_event(I, ev)
+                        k = (d['kind'], d['module'], d['func'], d['construct'])
+                        if k not in seen:
+                            seen.add(k)
+                            d['input'] = S.describe(ein, arg)[:80]
+                            out['alarms'].append(d)
+                for ce, cv in (couts if isinstance(couts, list) else []):
+                    rec = {'how': how, 'source': S.describe(e1, v)[:80], 'kind': kind_of(I, ce, cv)}
+                    if isinstance(cv, Str):
+                        rec['desc'] = S.describe(ce, cv)[:100]
+                        # compact view of the result through the target's (or the source's) compact()
+                        tmod = target or mn
+                        rcm = prog.resolve_name(prog.mods[tmod], 'compact')
+                        comp = cv
+                        if rcm and rcm[0] == 'func':
+                            e2 = ce.copy()
+                            e2.frames = [{}]
+                            I.ctx.scopes.append([])
+                            I.ctx.stack = [(tmod, '<entry>')]
+                            try:
+                                c2 = I.call_func(Func(rcm[1], rcm[2]), [cv], {}, prog.mods[rcm[1]].funcs[rcm[2]], e2, multi=True)
+                            finally:
+                                I.ctx.scopes.pop()
+                            if isinstance(c2, list) and len(c2) == 1 and isinstance(c2[0][1], Str):
+                                ce, comp = c2[0]
+                        rec['fixed'] = comp.fixed
+                        rec['length'] = len(comp.pre) if comp.fixed else None
+                        gen = {}
+                        for f in ce.facts:
+                            if isinstance(f, tuple) and f and f[0] == 'gen2':
+                                for c in f[3]:
+                                    gen[c] = (f[1], f[2])
+                        src_cells = list(v.pre)
+                        emb = []
+                        gens = set()
+                        shape = []
+                        for c in (comp.pre if comp.fixed else comp.cells()):
+                            ex = B.exact_chars(ce.cls(c))
+                            shape.append(''.join(sorted(ex)) if ex is not None else None)
+                            if c in gen:
+                                gens.add(gen[c][0])
+                            elif not isinstance(c, frozenset) and c in src_cells:
+                                emb.append(src_cells.index(c))
+                        rec['shape'] = shape
+                        rec['embedded'] = emb
+                        rec['in_order'] = emb == sorted(emb) and len(set(emb)) == len(emb)
+                        rec['generators'] = sorted(gens)
+                        # generator argument = the payload it is attached to
+                        rec['gen_args_ok'] = True
+                        for f in ce.facts:
+                            if isinstance(f, tuple) and f and f[0] == 'gen2':
+                                argcells = [c for c in f[4] if not isinstance(c, frozenset)]
+                                rescells = [c for c in (comp.pre if comp.fixed else comp.cells()) if not isinstance(c, frozenset)]
+                                if any(c in rescells for c in f[3]) and not all(c in rescells for c in argcells):
+                                    rec['gen_args_ok'] = False
+                        # can the target accept it?
+                        if target:
+                            rt = prog.resolve_name(prog.mods[target], 'validate')
+                            tnode = prog.mods[rt[1]].funcs[rt[2]]
+                            e3 = ce.copy()
+                            e3.frames = [{}]
+                            I.ctx.scopes = [[]]
+                            I.ctx.stack = [(target, '<entry>')]
+                            I.closures = []
+                            targs = [cv] + entry_args(I, tnode, e3)[1:]
+                            touts = I.call_func(Func(rt[1], rt[2]), targs, {}, tnode, e3, multi=True)
+                            rec['target_returns'] = len(touts) if isinstance(touts, list) else 0
+                            rec['target_raises'] = sorted(set(ev.kind for ev in I.ctx.scopes[0]))
+                    out['results'].append(rec)
+    except Exception:
+        import traceback
+        out['crash'] = traceback.format_exc()[-1500:]
+    return out
+
+
+def analyse_conversions(jobs_list, jobs=None):
+    jobs = jobs or min(16, os.cpu_count() or 1)
+    get_interp()
+    return _pool_map(_conversion_worker, list(jobs_list), jobs)
+
+
 def validate_with_options(mn, assignment):
     """Return summaries of validate() for one concrete assignment of its options (not cached)."""
     I = get_interp()
